@@ -27,6 +27,7 @@ import Drivers.SmoothInterp
 import Drivers.Rcb
 import Drivers.Ugrid
 import Drivers.Repro
+import Drivers.Mixed
 
 /-! `refdrv <driver> [args]` : dispatch to a line-protocol driver. One match arm per driver, on one line. -/
 
@@ -59,6 +60,7 @@ def main (args : List String) : IO UInt32 := do
   | "rcb" :: rest => Drivers.Rcb.run rest
   | "ugrid" :: rest => Drivers.Ugrid.run rest
   | "repro" :: rest => Drivers.Repro.run rest
+  | "mixed" :: rest => Drivers.Mixed.run rest
   | _ =>
     IO.eprintln s!"refdrv: unknown driver {args}"
     return 2
